@@ -1,6 +1,6 @@
 CONSTANTS
  Confs <- MCConfs
- FixWaitErr = FALSE
+ FixWaitErr = TRUE
  Reduce = FALSE
  MCShapes = {"img", "schema1", "inline", "empty", "ext"}
  MCPairs = {"tworeg", "samereg", "dir2dir"}
@@ -16,4 +16,4 @@ CONSTANTS
  Cap = 3
 INIT Init
 NEXT Next
-INVARIANTS TypeOK InvC04 InvFb InvC03 InvC14 InvFailTag
+INVARIANTS TypeOK InvC04 InvFb InvC03 InvC14 InvC14T InvFailTag
